@@ -113,7 +113,10 @@ def case_bincount(ctx, inp):
         ctx.eq("bincount: Lean merge of per-chunk counts = whole", m[0], m[1])
         ctx.eq("bincount: Lean vs NumPy", m[1], e.tolist())
     g = r.compute(scheduler="sync")
-    _cmp(ctx, "bincount", g, e, exact=w is None or w.dtype.kind != "f")
+    sig = None
+    if w is not None and len(x) == 0 and np.asarray(g).shape == e.shape and not np.asarray(g).any():
+        sig = "bincount:empty-input-with-weights:dtype"   # NumPy ignores the weights' dtype for empty input
+    _cmp(ctx, "bincount", g, e, exact=w is None or w.dtype.kind != "f", sig=sig)
     if kw["minlength"] and r.shape != e.shape:
         # by design (pinned test_bincount: "shape equal to minlength") the lazy shape is (minlength,) even when
         # the data exceed it; the statement of C27 is about values, lazy metadata is C25's subject
